@@ -66,3 +66,33 @@ def obstime_of_ms(ms):
 
 def ms_of_obstime(t):
     return ms_of_fields(t.year, t.month, t.day, t.hour, t.min, t.sec, t.ms)
+
+
+# --- tracks -------------------------------------------------------------------------------------
+def make_track(pts, times_ms=None, features=None):
+    """ENU track from pts = [(x, y) | (x, y, z)], times in epoch ms (default: 1 s apart from 2020-01-01),
+    features = {name: [values]} (optional)."""
+    from tracklib.core.obs import Obs
+    from tracklib.core.obs_coords import ENUCoords
+    from tracklib.core.track import Track
+    if times_ms is None:
+        t0 = ms_of_fields(2020, 1, 1)
+        times_ms = [t0 + 1000 * i for i in range(len(pts))]
+    tr = Track([], 1)
+    for p, t in zip(pts, times_ms):
+        z = p[2] if len(p) > 2 else 0.0
+        tr.addObs(Obs(ENUCoords(p[0], p[1], z), obstime_of_ms(t)))
+    for name, vals in (features or {}).items():
+        tr.createAnalyticalFeature(name, list(vals))
+    return tr
+
+
+def track_records(tr):
+    """model view of a track: list of (x, y, z, t_ms, tuple(features)) in track order"""
+    out = []
+    names = tr.getListAnalyticalFeatures()
+    for i in range(tr.size()):
+        o = tr.getObs(i)
+        out.append((o.position.getX(), o.position.getY(), o.position.getZ(), ms_of_obstime(o.timestamp),
+                    tuple(tr.getObsAnalyticalFeature(n, i) for n in names)))
+    return out
